@@ -3,7 +3,15 @@ package vh
 // Rng: splitmix64; every random choice of a run derives from one seed.
 type Rng struct{ s uint64 }
 
-func NewRng(seed uint64) *Rng { return &Rng{s: seed*0x9E3779B97F4A7C15 + 0x1234567} }
+// The seed is hashed first: with s = seed*gamma + c, consecutive seeds would
+// yield the same output stream shifted by one draw (the state advances by
+// gamma per draw), and generators with rejection loops then re-synchronise.
+func NewRng(seed uint64) *Rng {
+	r := &Rng{s: seed ^ 0x5DEECE66D1234567}
+	a := r.U64()
+	r.s = a ^ (seed+1)*0xD6E8FEB86659FD93
+	return r
+}
 
 func (r *Rng) U64() uint64 {
 	r.s += 0x9E3779B97F4A7C15
